@@ -1,8 +1,31 @@
-(** Property C10 -- resizing keeps the logical text (PARTIAL: identity case + totality; see DESIGN.md).
+(** Property C10 -- resizing keeps the logical text and the cursor's place in it.
     Only pinned statements, closed by [exact], with their assumptions printed. *)
-From Avt Require Import Model.Vt Proofs.Inv Proofs.ReflowCore Proofs.Resize.
+From Avt Require Import Oracles.Rel Proofs.Inv Proofs.ReflowCore Proofs.Resize Proofs.ReflowText Proofs.ResizeText.
 
-(** resizing to the same size changes neither content nor cursor *)
+(** Re-wrapping to any width >= 1 preserves the list of logical lines exactly (same number, same order, same cells, up to trailing default blanks of each logical line). *)
+Theorem C10_reflow_logical : forall ls c out, 1 <= c -> last_not_wrapped ls -> reflowM ls c = Ok out -> logical_t out = logical_t ls.
+Proof. exact reflow_logical. Qed.
+Check C10_reflow_logical : forall ls c out, 1 <= c -> last_not_wrapped ls -> reflowM ls c = Ok out -> logical_t out = logical_t ls.
+Print Assumptions C10_reflow_logical.
+
+(** The cursor stays in the same logical line and - when it was on a character of the text - on that same character, for every buffer, every cursor (wrap-pending column included) and every new size. *)
+Theorem C10_cursor : forall b nc nr cc cr b' cc' cr', BInv b -> 1 <= nc -> 1 <= nr -> cr < brows b -> buf_resize b nc nr cc cr = Ok (b', (cc', cr')) -> fst (curs b' cc' cr') = fst (curs b cc cr) /\ (snd (curs b cc cr) < length (nth (fst (curs b cc cr)) (logical_t (lines b)) []) -> snd (curs b' cc' cr') = snd (curs b cc cr)).
+Proof. exact resize_cursor_line'. Qed.
+Check C10_cursor : forall b nc nr cc cr b' cc' cr', BInv b -> 1 <= nc -> 1 <= nr -> cr < brows b -> buf_resize b nc nr cc cr = Ok (b', (cc', cr')) -> fst (curs b' cc' cr') = fst (curs b cc cr) /\ (snd (curs b cc cr) < length (nth (fst (curs b cc cr)) (logical_t (lines b)) []) -> snd (curs b' cc' cr') = snd (curs b cc cr)).
+Print Assumptions C10_cursor.
+
+(** The full executable statement [resize_preserves]: lines above the cursor's line unchanged, the cursor's line intact up to the cursor (possibly cut short after it), later lines unchanged or one cut short followed only by blank lines. *)
+Theorem C10_text : forall b nc nr cc cr b' cc' cr', BInv b -> 1 <= nc -> 1 <= nr -> cr < brows b -> cc <= bcols b -> buf_resize b nc nr cc cr = Ok (b', (cc', cr')) -> resize_preserves b cc cr b' cc' cr' = true.
+Proof. exact resize_text. Qed.
+Check C10_text : forall b nc nr cc cr b' cc' cr', BInv b -> 1 <= nc -> 1 <= nr -> cr < brows b -> cc <= bcols b -> buf_resize b nc nr cc cr = Ok (b', (cc', cr')) -> resize_preserves b cc cr b' cc' cr' = true.
+Print Assumptions C10_text.
+
+(** ... and at the level of the public operation: the statement evaluated on every implementation resize is a theorem of the model for every state satisfying the invariant. *)
+Theorem C10_step : forall v c r v' o, Inv v -> 1 <= c -> 1 <= r -> stepM v (Resize c r) = Ok (v', o) -> holds_C10 v v' = true.
+Proof. exact C10_resize_step. Qed.
+Check C10_step : forall v c r v' o, Inv v -> 1 <= c -> 1 <= r -> stepM v (Resize c r) = Ok (v', o) -> holds_C10 v v' = true.
+Print Assumptions C10_step.
+
 Theorem C10_same_size : forall b cc cr, BInv b -> cr < brows b -> buf_resize b (bcols b) (brows b) cc cr = Ok (b <| trim_needed := true |>, (cc, cr)).
 Proof. exact buf_resize_same. Qed.
 Check C10_same_size : forall b cc cr, BInv b -> cr < brows b -> buf_resize b (bcols b) (brows b) cc cr = Ok (b <| trim_needed := true |>, (cc, cr)).
